@@ -39,12 +39,11 @@ func (h *killedHandler) handleChildDeath() {
 
 // checkAndMarkKilled 检查并标记为 killed
 func (h *killedHandler) checkAndMarkKilled() {
-	// 如果还有子 Actor，则不处理自身死亡
-	if h.ctx.childrenCount() != 0 || !atomic.CompareAndSwapInt32(&h.ctx.state, killing, killed) {
-		h.shouldContinue = false
-		return
-	}
-	h.shouldContinue = true
+	// 如果还有子 Actor，则不处理自身死亡。
+	// 判定与状态切换在 childrenLock 内完成：ActorOf 在同一把锁内读取状态并登记子 Actor，二者之间不能插入新的登记
+	h.ctx.childrenLock.Lock()
+	h.shouldContinue = len(h.ctx.children) == 0 && atomic.CompareAndSwapInt32(&h.ctx.state, killing, killed)
+	h.ctx.childrenLock.Unlock()
 }
 
 // prepareSelfKilledMessage 准备自身死亡消息
